@@ -224,8 +224,10 @@ class World:
             data = bytes.fromhex(op["hex"])
         else:
             try:
-                data = rfc4511.enc_msg(op["msg"], outer_form=op.get("form"))
-            except (KeyError, ValueError, TypeError) as e:
+                sty = op.get("style") or self.init.get("style") or [None, None]
+                with ber.style(sty[0], sty[1]):
+                    data = rfc4511.enc_msg(op["msg"], outer_form=op.get("form"))
+            except (KeyError, ValueError, TypeError, IndexError) as e:
                 ev["noop"] = True
                 ev["build_error"] = repr(e)
                 return ev
